@@ -447,6 +447,7 @@ macro_rules! flavour_mod {
                     };
                     let out: Result<String, ()> = if let Some(op) = eop {
                         let before = if ctx.has("contract") { Some(st.lists()) } else { None };
+                        let twin_before = if ctx.has("twincontract") && !st.twins.is_empty() { Some(st.lists()) } else { None };
                         if SYNC {
                             crate::hook::trace_start();
                         }
@@ -472,6 +473,25 @@ macro_rules! flavour_mod {
                             }
                         };
                                                 ctx.count(&format!("op.{}.{}", t[0], match &r { OpRes::Unit | OpRes::Val(_) => "ok", OpRes::NotFound => "notfound", OpRes::Exists => "exists", OpRes::Panic => "panic", OpRes::Deadlock => "deadlock" }));
+                        if let Some(tb) = twin_before {
+                            // node objects are identified by their position in `lists()` (nodes, then twins)
+                            let idx = |k: usize| -> usize {
+                                if k >= TWIN { st.nodes.len() + st.twins.iter().position(|n| *n.key() == k - TWIN).unwrap() } else { st.nodes.iter().position(|n| *n.key() == k).unwrap() }
+                            };
+                            let chk = match (&op, &r) {
+                                (EdgeOp::Connect(u, v, e), OpRes::Unit) => Some((idx(*u), idx(*v), *e, true)),
+                                (EdgeOp::TryConnect(u, v, e), OpRes::Unit) => Some((idx(*u), idx(*v), *e, true)),
+                                (EdgeOp::TryConnect(u, v, e), OpRes::Exists) => Some((idx(*u), idx(*v), *e, false)),
+                                _ => None,
+                            };
+                            if matches!(r, OpRes::Panic | OpRes::Deadlock) {
+                                ctx.fail(case, li, "twincontract", format!("{:?} -> {:?}", op, r));
+                            } else if let Some((ui, vi, e, acc)) = chk {
+                                if let Err(m) = twin_connect_contract(DIRECTED, &tb, &st.lists(), ui, vi, e, acc) {
+                                    ctx.fail(case, li, "twincontract", m);
+                                }
+                            }
+                        }
                         if let Some(before) = before {
                             if matches!(r, OpRes::Panic | OpRes::Deadlock) {
                                 ctx.fail(case, li, "contract", format!("{:?} -> {:?}", op, r));
